@@ -58,18 +58,48 @@ def replay(prop, path):
     if kind not in ("dbg", "rel", "asan"):
         kind = "dbg"
     m = CHECKS.get(prop)
-    mod_replay = getattr(sys.modules.get(getattr(m, "__module__", "")), "replay", None)
+    mod = sys.modules.get(getattr(m, "__module__", ""))
+    mod_replay = getattr(mod, "replay", None) if mod is not sys.modules[__name__] else None
     if mod_replay is not None:
         return mod_replay(path)
     binary = build(kind)
     env = dict(common.ENV_BASE)
     env["ASAN_OPTIONS"] = common.ASAN_OPTIONS
+    rp = rec.get("replay", {}) if isinstance(rec.get("replay"), dict) else {}
+    if rp.get("engine") in ("procspec", "proccap") and "idx" in rp:
+        # child-process cases are regenerated from (engine, stage, seed, index) and run once more
+        import shutil
+        import tempfile
+        os.makedirs(os.path.join(common.VERIF, "run"), exist_ok=True)
+        d = tempfile.mkdtemp(prefix="replay-", dir=os.path.join(common.VERIF, "run"))
+        try:
+            idx = int(rp["idx"])
+            cmd = [build("dbg"), rp["engine"], "--seed", str(rp.get("seed", rec.get("seed", 1))), "--shard", "0", "--nshards", "1",
+                   "--start", str(idx), "--count", str(idx + 1), "--stage", str(rp.get("stage", "random")),
+                   "--vhelper", common.vhelper("dbg"), "--scratch", d, "--keep-stdout", "1"]
+            p = subprocess.run(cmd, env=env, cwd=common.VERIF, stdout=subprocess.PIPE, stderr=subprocess.PIPE, text=True, errors="replace", timeout=600)
+        finally:
+            shutil.rmtree(d, ignore_errors=True)
+        fails = [line for line in p.stdout.splitlines() if line.startswith("F ")]
+        for line in fails[:3]:
+            print(line[:1500])
+        if "Z done" not in p.stdout:
+            print(f"replay of {path}: the worker did not finish ({p.stderr[-300:]!r}); no verdict")
+            return 3
+        if fails:
+            print(f"VIOLATION property={prop} replay={path}")
+            return 1
+        print(f"replay of {path}: the recorded case no longer fails")
+        return 0
     cmd = [binary, "replay", "--file", path, "--keep-stdout", "1"]
     if quarantine:
         cmd += ["--quarantine", "1"]
     p = subprocess.run(cmd, env=env, cwd=common.VERIF, stdout=subprocess.PIPE, stderr=subprocess.PIPE, text=True, errors="replace")
     sys.stdout.write(p.stdout[-20000:])
     sys.stderr.write(p.stderr[-6000:])
+    if "Z done" not in p.stdout and not any(line.startswith("F ") for line in p.stdout.splitlines()):
+        print(f"replay of {path}: the worker could not replay this record; no verdict")
+        return 3
     failed = p.returncode != 0 or any(line.startswith("F ") for line in p.stdout.splitlines())
     if failed:
         print(f"VIOLATION property={prop} replay={path}")
